@@ -134,12 +134,46 @@ func checkC16(r *Run) {
 			}
 			_, xCS := isLoadOfField(bin.X, csF)
 			_, yCS := isLoadOfField(bin.Y, csF)
-			if !xCS || !yCS || (bin.X != stLoad && bin.Y != stLoad) {
+			if !xCS || !yCS {
 				continue
 			}
-			other := bin.X
-			if other == stLoad {
+			// one operand is the reported state: the very load passed to the callback, or another load of the field in the
+			// same critical section with no store to it in between
+			sameAsReported := func(v ssa.Value) bool {
+				if v == stLoad {
+					return true
+				}
+				ld, ok := v.(*ssa.UnOp)
+				if !ok || !c.heldAt(upd, ld, upd.Params[0], muF, "w") {
+					return false
+				}
+				b1, _ := isLoadOfField(v, csF)
+				b2, _ := isLoadOfField(stLoad, csF)
+				if c.Resolve(b1) != c.Resolve(b2) {
+					return false
+				}
+				for _, st := range storesToField(upd, csF) {
+					is := func(t ssa.Instruction) func(ssa.Instruction) bool {
+						return func(x ssa.Instruction) bool { return x == t }
+					}
+					_, a1 := CanReach(upd, ld, is(st), PathQ{})
+					_, a2 := CanReach(upd, st, is(stLoad.(ssa.Instruction)), PathQ{})
+					_, b1 := CanReach(upd, stLoad.(ssa.Instruction), is(st), PathQ{})
+					_, b2 := CanReach(upd, st, is(ld), PathQ{})
+					if (a1 && a2) || (b1 && b2) {
+						return false
+					}
+				}
+				return true
+			}
+			var other ssa.Value
+			switch {
+			case sameAsReported(bin.X):
 				other = bin.Y
+			case sameAsReported(bin.Y):
+				other = bin.X
+			default:
+				continue
 			}
 			// `other` is the load taken before the store
 			before := true
